@@ -105,24 +105,63 @@ def atomic_write(ctx):
 
 
 def load_shape(ctx):
+    from .. import sym
     R, p = ctx.r, ctx.p
     rule = 'C15.load-shape'
     fn = p.find(f'{JS}.load')
     if fn is None:
         R.bad(rule, f'{JS}.load', 'anchor missing')
         return
-    rets = [r for r in walk_local(fn) if isinstance(r, ast.Return)]
-    for i, r in enumerate(rets):
-        v = r.value
-        ok = isinstance(v, ast.Tuple) and len(v.elts) == 2 and dotted(v.elts[0]) == 'db'
-        second = norm(v.elts[1]) if ok else None
-        ok = ok and (second in ('db[self.namespace]', 'key_map', 'next(iter(db.values()))'))
-        if ok and second == 'key_map':
-            ok = any(norm(s) == 'db[self.namespace] = key_map' for s in walk_local(fn))
-        R.check(ok, rule, f'{JS}.load | return #{i + 1}', f'returns (db, {second})', f'load() returns `{norm(v)}` where every caller expects (database, key map of the namespace): a later save() writes the wrong object as the whole file', p.loc(r))
-    R.check(len(rets) == 3, rule, f'{JS}.load | cases', 'namespace present / default namespace adopting the only entry / new namespace', f'{len(rets)} return paths', p.loc(fn))
-    src = norm(fn)
-    R.check('except FileNotFoundError:' in src and 'db = {}' in src, rule, f'{JS}.load | missing file', 'a missing file is an empty database', 'missing key file is not treated as an empty database', p.loc(fn))
+
+    class D(sym.Sym):
+        # extra = True once the key file was opened (or found missing) on this path
+        def on_event(self, node, extra, facts, store):
+            if isinstance(node, ast.Call) and dotted(node.func) == 'open' and node.args and norm(node.args[0]) == 'self.filename':
+                return True
+            return extra
+
+        def may_raise(self, call):
+            return 'FileNotFoundError' if dotted(call.func) == 'open' else False
+
+        def enter_handler(self, handler, v):
+            facts, store, extra = v
+            if handler.type is not None and 'FileNotFoundError' in text(handler.type):
+                extra = True
+            return ((facts, store, extra),)
+    res = paths.run(fn, D(substitute=False), sym.Sym.init(False))
+    exits = [e for e in sym.exits(res) if e[0].startswith('ret')]
+    cases = {}
+    for k, facts, store, opened, w in exits:
+        ret = store.get('<return>', '')
+        try:
+            tup = ast.parse(ret, mode='eval').body
+        except SyntaxError:
+            tup = None
+        if not (isinstance(tup, ast.Tuple) and len(tup.elts) == 2):
+            R.bad(rule, f'{JS}.load | return shape `{ret}`', f'load() returns `{ret}` where every caller expects (database, key map of the namespace): a later save() writes the wrong object as the whole file', p.loc(fn))
+            continue
+        db_e, km = norm(tup.elts[0]), norm(tup.elts[1])
+        db_src = store.get(db_e, db_e)
+        fresh = bool(opened) and db_src in ('json.load(json_file)', '{}')
+        if km == f'{db_e}[self.namespace]':
+            case, ok = 'own entry', sym.holds(facts, f'self.namespace in {db_e}')
+        elif store.get(km) == '{}':
+            case, ok = 'new entry', any(norm(s_) == f'{db_e}[self.namespace] = {km}' for s_ in walk_local(fn)) and any(a.startswith('self.namespace in ') and db_e in a and not t for a, t in facts.items())
+        else:
+            case = f'adopted entry `{km}`'
+            ok = sym.holds(facts, 'self.namespace == self.DEFAULT_NAMESPACE') and sym.holds(facts, f'len({db_e}) == 1') and km == f'next(iter({db_e}.values()))'
+        c = cases.setdefault(case, {'ok': True, 'fresh': True, 'w': [], 'src': set()})
+        c['ok'] &= ok
+        c['fresh'] &= fresh
+        c['src'].add(db_src)
+        if not ok or not fresh:
+            c['w'].append(' '.join(w) + f' facts={sorted((a, t) for a, t in facts.items())}')
+    for case, c in sorted(cases.items()):
+        R.check(c['fresh'], rule, f'{JS}.load | {case} | database read from the file', 'on every path the database returned was read from the key file during this call (or the file is missing)',
+                f'load() can return a database that was not read from the file in this call ({sorted(c["src"])}): another store instance sharing the file has its updates overwritten by the next save()', p.loc(fn), c['w'][:2])
+        R.check(c['ok'], rule, f'{JS}.load | {case} | ownership', 'the key map handed out belongs to this namespace (own entry; new entry when absent; the only entry adopted by the default namespace only)',
+                f'load() hands out a key map the namespace does not own ({case}): one namespace reads and overwrites another\'s keys', p.loc(fn), c['w'][:2])
+    R.check(set(cases) == {'own entry', 'new entry', 'adopted entry `next(iter(db.values()))`'}, rule, f'{JS}.load | cases', 'namespace present / default namespace adopting the only entry / new namespace', f'return cases {sorted(cases)}', p.loc(fn))
 
 
 def fields_rule(ctx):
@@ -184,4 +223,7 @@ VARIANTS = [
     ('link_key_type not written', 'bumble/keys.py', "        if self.link_key_type is not None:\n            keys['link_key_type'] = self.link_key_type\n\n", "", 'fire', 'C15.fields'),
     ('load returns namespace name', 'bumble/keys.py', "            return (db, next(iter(db.values())))\n", "            return next(iter(db.items()))\n", 'fire', 'C15.load-shape'),
     ('benign: indent 2', 'bumble/keys.py', "            json.dump(db, output, sort_keys=True, indent=4)\n", "            json.dump(db, output, sort_keys=True, indent=2)\n", 'silent', ''),
+    ('any namespace adopts the only entry', 'bumble/keys.py', "        if self.namespace == self.DEFAULT_NAMESPACE and len(db) == 1:", "        if len(db) == 1:", 'fire', 'C15.load-shape'),
+    ('database cached on the instance', 'bumble/keys.py', "        try:\n            with open(self.filename, encoding='utf-8') as json_file:\n                db = json.load(json_file)\n        except FileNotFoundError:\n            db = {}\n", "        db = getattr(self, '_db', None)\n        if db is None:\n            try:\n                with open(self.filename, encoding='utf-8') as json_file:\n                    db = json.load(json_file)\n            except FileNotFoundError:\n                db = {}\n            self._db = db\n", 'fire', 'C15.load-shape'),
+    ('benign: default-namespace test written the other way', 'bumble/keys.py', "        if self.namespace == self.DEFAULT_NAMESPACE and len(db) == 1:", "        if len(db) == 1 and self.DEFAULT_NAMESPACE == self.namespace:", 'silent', ''),
 ]
